@@ -79,8 +79,9 @@ def many_prefix_case(rng):
     import string
     syms = rng.sample(string.ascii_lowercase + string.digits, rng.choice([28, 30, 32]))
     tail = rng.choice(syms)
-    n = rng.choice([700, 800, 900])
-    pref = rng.sample([a + b for a in syms for b in syms], n)
+    pairs = [a + b for a in syms for b in syms]
+    n = min(rng.choice([700, 800, 900]), len(pairs))    # 28 symbols give 784 pairs
+    pref = rng.sample(pairs, n)
     items = [[p_ + tail * rng.choice([2, 2, 3]), 1] for p_ in pref]
     return {'items': items, 'encoding': 'utf-8', 'ngram': 3, 'max_len': 6, 'alphabet': 100, 'coverage': 0.6, 'symbols': ''.join(syms), 'hseed': rng.getrandbits(32),
             'prefixcount': False, 'many_prefixes': True}
